@@ -15,7 +15,7 @@ ID = "C05"
 RULE = (
     "(L1 kernels) for every splitting / convolved-splitting label, nf 3-6 and generated real or integer Mellin N the numerically "
     "integrated moment of the RSL equals -gamma(N) from ekore (products of LO gammas for the convolved labels). (L2 identities) "
-    "on generated runs with both variations on (any kind, process, scheme, heavyness, target, PTO 1-3) the keys (1,0,0,1), "
+    "on generated runs of 1-3 points with both variations on (any kind, process, scheme, heavyness, target, PTO 1-3; the points of a ZM-VFNS run may lie in different nf regions and each is judged at its own nf) the keys (1,0,0,1), "
     "(2,0,0,1), (2,0,0,2), (2,0,1,0), (2,0,1,1), (2,0,1,2), (3,0,1,0), (3,0,2,0) equal the combinations of the central tensors "
     "that dF/dln mu^2=0 prescribes, with beta0=11-2nf/3, beta1=102-38nf/3 typed in and flavour-space splitting matrices (P^V, "
     "P^qqbar, P^S, qg, gq, gg) assembled by the independent convolution engine of C01 acting on the kernels validated in L1 (their "
@@ -33,7 +33,7 @@ ASSUMPTIONS = [
 ]
 BUDGET = {"quick": {"examples": 480, "wall": 500, "min_evaluations": 150}, "thorough": {"examples": 10000, "wall": 2400, "min_evaluations": 2500}}
 MANDATORY = {
-    t: ["nontrivial", "clause:L1", "clause:L2", "clause:L3", "pto:2", "pto:3", "singlet-content", "intrinsic-rows", "L1:convolved"]
+    t: ["nontrivial", "clause:L1", "clause:L2", "clause:L3", "pto:2", "pto:3", "singlet-content", "intrinsic-rows", "L1:convolved", "L2:several-nf-in-one-run"]
     for t in ("quick", "thorough")
 }
 SHRINK = {"quick": False, "thorough": True}
@@ -117,7 +117,7 @@ def cases(draw, tier="quick"):
             sv="both",
             targets=("proton", "proton", "ZA"),
             grid_kw={"nmin": 4, "nmax": 6, "umin": 1.0, "umax": 3.5},
-            n_points=(1, 1),
+            n_points=(1, 3) if clause == "L2" else (1, 1),
             x_classes=["interior", "node", "large"],
             q2range=(2.0, 1e4),
         )
@@ -185,6 +185,62 @@ def compose(o, mats, nf, which):
     return res
 
 
+def _l2_point(v, th, meta, name, pto, b, kin, ts, matcache):
+    nf = cards.nf_ref(th, kin["Q2"])
+    if nf not in matcache:
+        matcache[nf] = matrices(b, nf, pto >= 2)
+    mats = matcache[nf]
+    b0 = 11.0 - 2.0 * nf / 3.0
+    b1 = 102.0 - 38.0 * nf / 3.0
+    z = np.zeros_like(ts[(0, 0, 0, 0)])
+    o = [ts.get((i, 0, 0, 0), z) for i in range(4)]
+    # factorisation-scale terms act on the non-intrinsic rows only
+    intr = [run.ROW[p] for p in run.PIDS if p not in (21, 22) and abs(p) > nf]
+    of = []
+    for t in o:
+        t2 = np.array(t, copy=True)
+        t2[intr] = 0.0
+        of.append(t2)
+    if any(np.any(t[intr] != 0) for t in o):
+        v.label("intrinsic-rows")
+    if np.any(of[1][run.ROW[21]] != 0):
+        v.label("singlet-content")
+    exp = {}
+    exp[(1, 0, 0, 1)] = ("fact", compose(of[0], mats, nf, "0"))
+    if pto >= 2:
+        exp[(2, 0, 0, 1)] = ("fact", compose(of[0], mats, nf, "1") + compose(of[1], mats, nf, "0"))
+        exp[(2, 0, 0, 2)] = ("fact", 0.5 * (compose(of[0], mats, nf, "00") + b0 * compose(of[0], mats, nf, "0")))
+        exp[(2, 0, 1, 0)] = ("beta", -b0 * o[1])
+        exp[(2, 0, 1, 1)] = ("fact", -b0 * compose(of[0], mats, nf, "0"))
+        exp[(2, 0, 1, 2)] = ("beta", 0.0 * o[0])
+    if pto >= 3:
+        exp[(3, 0, 1, 0)] = ("beta", -2.0 * b0 * o[2] - b1 * o[1])
+        exp[(3, 0, 2, 0)] = ("beta", b0 * b0 * o[1])
+    nz = False
+    for k, (cls, e) in exp.items():
+        if k not in ts:
+            v.fail(f"C05:L2:missing:{k}", f"{name}: key {k} missing from the output")
+            continue
+        s = max(run.maxabs(e), run.maxabs(ts[k]), 1e-300)
+        # absolute scale: the largest term entering the combination
+        s = max(s, run.maxabs(o[0]) * (b0 if cls == "fact" else 0.0))
+        d = run.maxabs(ts[k] - e)
+        rtol = 2e-6 if cls == "fact" else 1e-12
+        x = kin["x"]
+        if cls == "fact":
+            rtol += 4e-9 / (1.0 - min(x, 1 - 1e-12))
+        v.metric(f"L2:{cls}", d / (rtol * s))
+        if run.maxabs(e) > 0:
+            nz = True
+        if not d <= rtol * s:
+            bad = np.unravel_index(np.argmax(np.abs(ts[k] - e)), e.shape)
+            v.fail(
+                f"C05:L2:{k}:{'intrinsic' if intr and bad[0] in intr else 'light'}",
+                f"{name} ({meta['process']}, {meta['scheme']}, nf={nf}) x={x!r}: key {k} = {ts[k][bad]!r} at pid {run.PIDS[bad[0]]} node {bad[1]}, RGE prescribes {e[bad]!r} (|d|={d:.3e}, scale {s:.3e})",
+            )
+    return nz
+
+
 def check_case(case):
     v = Verdict()
     cl = case["clause"]
@@ -208,11 +264,8 @@ def check_case(case):
         th, ob, meta = case["theory"], case["obs"], case["meta"]
         name, pto = meta["name"], meta["pto"]
         v.label(f"pto:{pto}", f"scheme:{meta['scheme']}", f"kind:{meta['kind']}")
-        kin = ob["observables"][name][0]
-        nf = cards.nf_ref(th, kin["Q2"])
-        res = run.run(th, ob)[name][0]
-        ts = run.tensors(res)
         if cl == "L3":
+            ts = run.tensors(run.run(th, ob)[name][0])
             nz = False
             for ren, fact in ((True, False), (False, True), (False, False)):
                 t2 = dict(th, RenScaleVar=ren, FactScaleVar=fact)
@@ -233,57 +286,16 @@ def check_case(case):
             if nz:
                 v.label("nontrivial")
             return v
-        # ---- L2
+        # ---- L2: every point of the run against the identities at its own nf
         b = basis.Basis(ob["interpolation_xgrid"], ob["interpolation_polynomial_degree"], ob["interpolation_is_log"])
-        mats = matrices(b, nf, pto >= 2)
-        b0 = 11.0 - 2.0 * nf / 3.0
-        b1 = 102.0 - 38.0 * nf / 3.0
-        z = np.zeros_like(ts[(0, 0, 0, 0)])
-        o = [ts.get((i, 0, 0, 0), z) for i in range(4)]
-        # factorisation-scale terms act on the non-intrinsic rows only
-        intr = [run.ROW[p] for p in run.PIDS if p not in (21, 22) and abs(p) > nf]
-        of = []
-        for t in o:
-            t2 = np.array(t, copy=True)
-            t2[intr] = 0.0
-            of.append(t2)
-        if any(np.any(t[intr] != 0) for t in o):
-            v.label("intrinsic-rows")
-        if np.any(of[1][run.ROW[21]] != 0):
-            v.label("singlet-content")
-        exp = {}
-        exp[(1, 0, 0, 1)] = ("fact", compose(of[0], mats, nf, "0"))
-        if pto >= 2:
-            exp[(2, 0, 0, 1)] = ("fact", compose(of[0], mats, nf, "1") + compose(of[1], mats, nf, "0"))
-            exp[(2, 0, 0, 2)] = ("fact", 0.5 * (compose(of[0], mats, nf, "00") + b0 * compose(of[0], mats, nf, "0")))
-            exp[(2, 0, 1, 0)] = ("beta", -b0 * o[1])
-            exp[(2, 0, 1, 1)] = ("fact", -b0 * compose(of[0], mats, nf, "0"))
-            exp[(2, 0, 1, 2)] = ("beta", 0.0 * o[0])
-        if pto >= 3:
-            exp[(3, 0, 1, 0)] = ("beta", -2.0 * b0 * o[2] - b1 * o[1])
-            exp[(3, 0, 2, 0)] = ("beta", b0 * b0 * o[1])
+        allres = run.run(th, ob)[name]
+        nfs = [cards.nf_ref(th, k["Q2"]) for k in ob["observables"][name]]
+        if len(set(nfs)) > 1 and meta["scheme"] == "ZM-VFNS":
+            v.label("L2:several-nf-in-one-run")
+        matcache = {}
         nz = False
-        for k, (cls, e) in exp.items():
-            if k not in ts:
-                v.fail(f"C05:L2:missing:{k}", f"{name}: key {k} missing from the output")
-                continue
-            s = max(run.maxabs(e), run.maxabs(ts[k]), 1e-300)
-            # absolute scale: the largest term entering the combination
-            s = max(s, run.maxabs(o[0]) * (b0 if cls == "fact" else 0.0))
-            d = run.maxabs(ts[k] - e)
-            rtol = 2e-6 if cls == "fact" else 1e-12
-            x = kin["x"]
-            if cls == "fact":
-                rtol += 4e-9 / (1.0 - min(x, 1 - 1e-12))
-            v.metric(f"L2:{cls}", d / (rtol * s))
-            if run.maxabs(e) > 0:
-                nz = True
-            if not d <= rtol * s:
-                bad = np.unravel_index(np.argmax(np.abs(ts[k] - e)), e.shape)
-                v.fail(
-                    f"C05:L2:{k}:{'intrinsic' if intr and bad[0] in intr else 'light'}",
-                    f"{name} ({meta['process']}, {meta['scheme']}, nf={nf}) x={x!r}: key {k} = {ts[k][bad]!r} at pid {run.PIDS[bad[0]]} node {bad[1]}, RGE prescribes {e[bad]!r} (|d|={d:.3e}, scale {s:.3e})",
-                )
+        for kin, res in zip(ob["observables"][name], allres):
+            nz = _l2_point(v, th, meta, name, pto, b, kin, run.tensors(res), matcache) or nz
         v.nontrivial = nz
     if v.nontrivial:
         v.label("nontrivial")
